@@ -209,13 +209,11 @@ def check_html(case, text, r, out):
         if e.level != 'isa' or e.code != '024' or not (e.msg or '').startswith('Segment '):
             continue
         msg = norm(e.msg)
-        mm = re.match(r'Segment (\S+?)\*', e.msg) if 'not found' in e.msg else None
+        mm = re.match(r'Segment (\S+?)\*', e.msg) if 'not found' in e.msg else re.match(r'Segment identifier "(.*)" is invalid', e.msg)
         ok = False
         for n, (idx, t) in enumerate(seg_lines):
             sid = tk.segs[n].id
             if mm and sid != mm.group(1):
-                continue
-            if not mm and sid not in ('ISA', 'GS', 'ST', 'GE', 'IEA') and not tk.segs[n].raw.lstrip('\r\n').startswith(' '):
                 continue
             lo = seg_lines[n - 1][0] if n > 0 else -1
             hi = seg_lines[n + 1][0] if n + 1 < len(seg_lines) else len(segs)
